@@ -15,10 +15,10 @@ WORDS = {"utf-8": ["çãé", "naïve €", "٣٤ 😀", "plain", "a\x85b", "x\u2
          "latin-1": ["çãé", "ñü ¿", "plain", "þÿ", "a\x85b", "p\x0cq", "s\x1dt"], "cp1252": ["çãé", "naïve €", "plain", "œ™", "p\x0cq", "s\x1et"]}
 
 
-def file_class(fam, binary, enc):
+def file_class(fam, binary, enc, litw=4, ident="R"):
     if fam == "register":
-        rd = {"ident": "R", "digits": 2, "fields": [{"k": "lit", "size": 10, "start": 2}] if not binary else
-              [{"k": "int", "size": 4, "start": 2}, {"k": "lit", "size": 4, "start": 6}], "delim": None}
+        rd = {"ident": ident, "digits": 2, "fields": [{"k": "lit", "size": 10, "start": 2}] if not binary else
+              [{"k": "int", "size": 4, "start": 2}, {"k": "lit", "size": litw, "start": 6}], "delim": None}
         return reglib.mk_file_class([reglib.mk_register_class(rd, 0)], binary, enc)
     if fam == "block":
         bd = {"begin": [[False, "\x01"]], "end": [[False, "\x02"]]} if binary else {"begin": [[True, "BEGIN"]], "end": [[False, "END"]]}
@@ -44,6 +44,18 @@ class CHECK(Check):
                    "tied to CPython by this check (contents of every case + malformed byte strings), not verified"]
 
     def gen(self, tier, rng):
+        # files larger than the I/O buffers (4096 / 8192 bytes): records straddling buffer boundaries, multi-chunk decoding
+        for rep in range(6 if tier == "quick" else 40):
+            nrec = rng.choice([450, 1000, 2500])
+            litw = rng.choice([1, 3, 5, 7, 4])   # odd record widths: a record start falls on every offset modulo the buffer size
+            yield {"fam": "register", "binary": True, "enc": "utf-8", "linesize": rng.choice([2, 2, 3]), "litw": litw, "ident": "RG",   # identifier as wide as its columns
+                   "content": "".join("RG" + chr(1 + (i % 100)) + "\x00\x00\x00" + ("ab%05d" % (i % 97))[:litw] for i in range(nrec))}
+            for fam in families.FAMILIES:
+                enc = rng.choice(ENCODINGS)
+                w = rng.choice(WORDS[enc])
+                yield {"fam": fam, "binary": False, "enc": enc,
+                       "content": "".join({"register": "R " + (w + str(i))[:10], "block": ("BEGIN " if i % 3 == 0 else "") + w + (" END" if i % 3 == 2 else ""), "section": w + str(i)}[fam] + "\n"
+                                          for i in range(nrec))}
         n = 1500 if tier == "quick" else 20000
         for _ in range(n):
             fam = rng.choice(families.FAMILIES)
@@ -67,7 +79,7 @@ class CHECK(Check):
 
     def impl(self, case):
         fam, binary, enc = case["fam"], case["binary"], case["enc"]
-        F = file_class(fam, binary, enc)
+        F = file_class(fam, binary, enc, case.get("litw", 4), case.get("ident", "R"))
         shutil.rmtree(TMP, ignore_errors=True)
         os.makedirs(TMP)
         p_in = os.path.join(TMP, "in.dat")
@@ -93,7 +105,7 @@ class CHECK(Check):
                     extra_obs["text_mode_read"] = fh.read()
             builtins.open = wopen
             try:
-                args = (1,) if (binary and fam == "register") else ()
+                args = (case.get("linesize", 1),) if (binary and fam == "register") else ()
                 f_path = F.read(p_in, *args)
                 f_mem = F.read(content, *args)
                 eq_read = bool(f_path == f_mem) and bool(f_mem == f_path)
